@@ -11,7 +11,61 @@ CALL_TIMEOUT = 6.0
 
 def run_worker(binary, models_path, n_models, nsolvers, extra_args=(), call_timeout=CALL_TIMEOUT):
     """Runs the worker; a call that does not answer within call_timeout is recorded as {'status':'timeout'} and the
-    worker is restarted just past it.  Returns dict (i,k) -> result."""
+    worker is restarted just past it.  Returns dict (i,k) -> result.
+    A timeout is a wall-clock observation and the machine may simply be busy: the first two timed-out calls are run
+    again on their own with four times the limit; one that answers then is kept as its answer (marked slow).  If none of
+    the re-run calls is confirmed, the remaining unconfirmed timeouts are attributed to load as well (marked
+    'unconfirmed-timeout', which no check reports as a hang)."""
+    results = _run_worker_once(binary, models_path, n_models, nsolvers, extra_args, call_timeout)
+    timed_out = sorted(k for k, v in results.items() if v.get("status") == "timeout")
+    confirmed = 0
+    for key in timed_out[:2]:
+        r = _run_single(binary, models_path, key, extra_args, 4 * call_timeout)
+        if r is None:
+            confirmed += 1
+        else:
+            r["slow"] = True
+            results[key] = r
+    if timed_out and confirmed == 0:
+        for key in timed_out[2:]:
+            results[key] = {"status": "unconfirmed-timeout"}
+    return results
+
+
+def _run_single(binary, models_path, key, extra_args, timeout):
+    """one call on its own: the worker is started at `key` and killed as soon as that call has answered"""
+    p = subprocess.Popen([binary, "worker", models_path, str(key[0]), str(key[1])] + list(extra_args),
+                         stdout=subprocess.PIPE, stderr=subprocess.DEVNULL, env=C.env_base())
+    fd = p.stdout.fileno()
+    buf = b""
+    started = time.time()
+    out = None
+    try:
+        while time.time() - started < timeout and out is None:
+            r, _, _ = select.select([fd], [], [], 0.25)
+            if not r:
+                continue
+            chunk = os.read(fd, 65536)
+            if not chunk:
+                break
+            buf += chunk
+            while b"\n" in buf and out is None:
+                line, buf = buf.split(b"\n", 1)
+                line = line.decode("utf-8", "replace")
+                if line.startswith("R "):
+                    _, a, b, rest = line.split(" ", 3)
+                    if (int(a), int(b)) == tuple(key):
+                        out = json.loads(rest)
+    finally:
+        try:
+            p.kill()
+        except Exception:
+            pass
+        p.wait()
+    return out
+
+
+def _run_worker_once(binary, models_path, n_models, nsolvers, extra_args=(), call_timeout=CALL_TIMEOUT):
     results = {}
     i0, k0 = 0, 0
     guard = 0
